@@ -227,6 +227,12 @@ class Run(object):
                     for r in ("s1", "l2"):
                         name, typ, conc = self.opt[r]
                         odd = name.upper()
+                        if self.pick.get("probe"):
+                            # as launch() does: see whether the caller has set the option (under the usual spelling) first
+                            try:
+                                getattr(c, name)
+                            except (KeyError, AttributeError):
+                                pass
                         if r.startswith("s"):
                             setattr(c, odd, py_value(typ, conc["a"]))
                         else:
